@@ -92,7 +92,14 @@ func (r *seedRunner) signal() {
 }
 
 // waitFor polls pred (under the lock) on every event until it holds or the timeout elapses.
+// after the first timed-out wait (the seeder does not do what every synchronisation relies on) the remaining waits
+// are cut short so that a broken tree is reported quickly
+var seedTimeouts int
+
 func (r *seedRunner) waitFor(timeout time.Duration, pred func() bool) bool {
+	if seedTimeouts >= 1 {
+		timeout = 300 * time.Millisecond
+	}
 	deadline := time.Now().Add(timeout)
 	for {
 		r.mu.Lock()
@@ -103,6 +110,7 @@ func (r *seedRunner) waitFor(timeout time.Duration, pred func() bool) bool {
 		}
 		left := time.Until(deadline)
 		if left <= 0 {
+			seedTimeouts++
 			return false
 		}
 		if left > 20*time.Millisecond {
@@ -448,11 +456,21 @@ func genSeed(r *Rand, n int, tier string, w *bufio.Writer) {
 		cfgNum := r.Pick(1, 2, 3, 100, 100)
 		cfgSize := r.Pick(1, 10, 30, 1000, 1000)
 		pend := r.Pick(1, 40, 80, 150, 100000)
+		// a case with a blocked-senders phase uses round memory sizes (10, 20, 40 per item) so that the pending
+		// counter meets its limit exactly
+		gateCase := r.Chance(1, gateEvery)
+		if gateCase {
+			pend = r.Pick(10, 20, 40, 80)
+		}
 		fmt.Fprintf(w, "cfg threads=%d num=%d size=%d chunks=%d pend=%d\n", 1+r.Intn(3), cfgNum, cfgSize, cfgChunks, pend)
 		var db []string
 		key := uint64(r.Intn(4))
 		for i, k := 0, r.Intn(14); i < k; i++ {
-			db = append(db, fmt.Sprintf("%d:%d", key, r.Pick(0, 1, 5, 10, 20)))
+			size := r.Pick(0, 1, 5, 10, 20)
+			if gateCase {
+				size = r.Pick(2, 2, 12, 32)
+			}
+			db = append(db, fmt.Sprintf("%d:%d", key, size))
 			key += 1 + uint64(r.Intn(3))*uint64(r.Intn(3))
 		}
 		if len(db) == 0 {
@@ -503,7 +521,7 @@ func genSeed(r *Rand, n int, tier string, w *bufio.Writer) {
 		}
 		nOps := 4 + r.Intn(maxOps)
 		gateAt := -1
-		if r.Chance(1, gateEvery) && pend < 100000 {
+		if gateCase {
 			gateAt = r.Intn(nOps)
 		}
 		for i := 0; i < nOps; i++ {
